@@ -34,6 +34,7 @@ ASSUMPTIONS = ["'in-between' cases (needed side present, other side missing) may
                "interest for the elapsed period may already have been credited when a rebalance raises (stated by the property)"]
 REQUIRED = ["C13:valuation-raises-when-missing", "C13:valuation-ok-when-flat", "C13:rebalance-raises-when-missing",
             "C13:rebalance-ok-when-quoted", "C13:atomic-on-failure", "C13:failpoint-atomic", "C13:episode-atomic"]
+REQUIRED_CATS = ["measure:weight", "measure:nr-contracts"]
 REQUIRED_HITS = ["Broker.transact", "Broker.rebalance", "Rebalancing.make_trades"]
 TECHNIQUE = "runtime monitoring with fault injection: enumerated quote faults and sys.monitoring failpoints, atomicity asserted via the Broker.transact hook"
 LEVEL_TEXT = ("Fault enumeration. All single-contract fault kinds x position x target combinations are enumerated against the real "
@@ -105,14 +106,27 @@ def judge(ctx, b, ex, cs, q, tgt, t, label):
             vals = [v] if isinstance(v, float) else list(v.values()) if isinstance(v, dict) else [v.nlv]
             ctx.check("C13:no-nan-value", not any(isinstance(x, float) and math.isnan(x) for x in vals), entry=name)
     keys = list(tgt)
-    r = Rebalancing(keys, [tgt[k] for k in keys], time=t + timedelta(days=1))
+    measure = "weight"
+    if ctx.rng.random() < 0.4 and not must_raise:
+        # contract-count targets: the imbalance (and so the side needed) is known without prices
+        measure = "nr-contracts"
+        tgt = {c: (0 if w == 0 else pos.get(c, 0.0) + ctx.rng.choice([-1, 1]) * ctx.rng.uniform(0.5, 3)) for c, w in tgt.items()}
+    ctx.cat("measure:" + measure)
+    r = Rebalancing(keys, [tgt[k] for k in keys], measure=measure, time=t + timedelta(days=1))
 
     def both(c):
         return not math.isnan(q[c][0]) and not math.isnan(q[c][1])
 
     involved = [c for c in cs if pos.get(c, 0.0) != 0 or tgt.get(c, 0) != 0]
-    need_missing = must_raise or any(
-        (tgt.get(c, 0) > 0 and math.isnan(q[c][1])) or (tgt.get(c, 0) < 0 and math.isnan(q[c][0])) for c in cs)
+    if measure == "weight":
+        need_missing = must_raise or any(
+            (tgt.get(c, 0) > 0 and math.isnan(q[c][1])) or (tgt.get(c, 0) < 0 and math.isnan(q[c][0])) for c in cs)
+    else:
+        need_missing = must_raise
+        for c in cs:
+            imb = tgt.get(c, 0) - pos.get(c, 0.0)
+            if (imb > 0 and math.isnan(q[c][1])) or (imb < 0 and math.isnan(q[c][0])):
+                need_missing = True
     all_ok = all(both(c) for c in involved)
     n0 = len(b.track_record)
     with TransactCounter() as cnt:
